@@ -63,6 +63,7 @@ type PointRec struct {
 	Kind    string // KSched, KSelect, or an environment kind given to Choose
 	Preempt bool   // KSched only: alternative 0 is the running thread, still enabled
 	ClockAt int    // KSched only: index of the "advance the clock" alternative, or -1
+	Step    int    // scheduler step count when the point was recorded
 }
 
 // Config of one execution.
@@ -86,6 +87,7 @@ type Sched struct {
 	nextID        int
 	evaluating    bool
 	settleCond    func() bool
+	injects       []inject
 	settleSince   int
 	settleClock   int64
 	settleExtra   int
@@ -239,6 +241,27 @@ func WaitQuiescent() {
 	s.quiescent = false
 }
 
+type inject struct {
+	step int
+	f    func()
+}
+
+// InjectAt schedules f to run atomically (no scheduling points inside it) just before the decision
+// that follows scheduler step number step. Events must be registered in increasing step order.
+func InjectAt(step int, f func()) {
+	if G != nil {
+		G.injects = append(G.injects, inject{step, f})
+	}
+}
+
+// StepNow returns the number of scheduler steps taken so far in this execution.
+func StepNow() int {
+	if G == nil {
+		return 0
+	}
+	return G.Steps
+}
+
 // WaitSettled parks the driver until the system is quiescent, or until cond has held for extra
 // scheduler steps (something keeps running: a spin or polling loop). Reports whether it was quiescent.
 func WaitSettled(cond func() bool, extra int) bool {
@@ -340,6 +363,14 @@ func (s *Sched) pick(self *Thread) *Thread {
 		if s.cfg.MaxVirtual > 0 && s.clock > int64(s.cfg.MaxVirtual) {
 			s.Horizon = true
 			return nil
+		}
+		for len(s.injects) > 0 && s.Steps >= s.injects[0].step {
+			// environment event pinned to a scheduling point of the execution: runs atomically here
+			in := s.injects[0]
+			s.injects = s.injects[1:]
+			s.evaluating = true
+			in.f()
+			s.evaluating = false
 		}
 		if s.quiesceWaiter != nil && s.settleCond != nil && !s.quiescent && s.settleSince < 0 {
 			s.evaluating = true
@@ -446,7 +477,7 @@ func (s *Sched) choose(n int, kind string, preempt bool, clockAt int) int {
 			panic(divergence{s.Diverged})
 		}
 	}
-	s.Points = append(s.Points, PointRec{N: n, C: c, Kind: kind, Preempt: preempt, ClockAt: clockAt})
+	s.Points = append(s.Points, PointRec{N: n, C: c, Kind: kind, Preempt: preempt, ClockAt: clockAt, Step: s.Steps})
 	return c
 }
 
